@@ -23,7 +23,7 @@ theorem tryInc_frame (t t' : QTree) (i : Nat) (alloc : Res) (hw : TreeWF t) (ha 
     (h : tryInc t i alloc = some t') :
     t'.length = t.length ∧
     (∀ j, j ∉ chain t i → t'[j]? = t[j]?) ∧
-    (∀ j q q', t[j]? = some q → t'[j]? = some q' →
+    (∀ (j : Nat) (q q' : Q), t[j]? = some q → t'[j]? = some q' →
         q'.max = q.max ∧ q'.parent = q.parent ∧ ∀ k, alloc.has k = false → q'.allocated.getD k = q.allocated.getD k) :=
   tryInc_frame_aux t t' i alloc hw ha h
 
@@ -35,7 +35,7 @@ theorem tryInc_refused_iff (t : QTree) (i : Nat) (alloc : Res) :
     already over before (through an RM-forced change or a lowered maximum). -/
 theorem sched_no_new_overmax (t t' : QTree) (i : Nat) (alloc : Res) (hw : TreeWF t) (ha : wf alloc = true)
     (h : tryInc t i alloc = some t') :
-    ∀ j q q' k, t[j]? = some q → t'[j]? = some q' → overMax q' k = true → overMax q k = true :=
+    ∀ (j : Nat) (q q' : Q) (k : String), t[j]? = some q → t'[j]? = some q' → overMax q' k = true → overMax q k = true :=
   tryInc_no_new_overmax t t' i alloc hw ha h
 
 /-- The effective limit of a queue is never looser than its parent's: on every type the parent's effective
